@@ -214,6 +214,7 @@ def c_lints(ctx, P, scope, rule="C-LINT", tus=None):
     lib_kind.span_kind(ctx, P, None, scope, tus=ltus)
     lib_kind.shifted_index(ctx, P, scope, tus=ltus)
     lib_kind.length_guard(ctx, P, scope, tus=ltus)
+    lib_kind.clear_domain(ctx, P, scope, tus=ltus)
     lib_kind.validate_before_mutate(ctx, P, scope, tus=[k for k in ltus if k in ('tables', 'trees')])
     return n
 
